@@ -2,7 +2,7 @@
 #[path = "../../../tests/unit/format/solution/writer_test.rs"]
 mod writer_test;
 
-use crate::format::CoordIndex;
+use crate::format::{CoordIndex, PlaceTagsDimension};
 use crate::format::solution::activity_matcher::get_job_tag;
 use crate::format::solution::model::Timing;
 use crate::format::solution::*;
@@ -147,8 +147,18 @@ fn create_tour(
                 let activity_type = activity_type.unwrap_or_else(|| "arrival".to_string());
                 let is_break = activity_type == "break";
 
+                // NOTE: activity knows index of the place used, so prefer it to matching by location and time
                 let job_tag = act.job.as_ref().and_then(|single| {
-                    get_job_tag(single, (act.place.location, (act.place.time.clone(), start.schedule.departure)))
+                    let by_place_idx = single
+                        .dimens
+                        .get_place_tags()
+                        .filter(|_| act.place.idx < single.places.len())
+                        .map(|tags| tags.iter().find(|(place_idx, _)| *place_idx == act.place.idx).map(|(_, tag)| tag));
+
+                    by_place_idx
+                        .unwrap_or_else(|| {
+                            get_job_tag(single, (act.place.location, (act.place.time.clone(), start.schedule.departure)))
+                        })
                         .cloned()
                 });
                 let job_id = match activity_type.as_str() {
